@@ -39,7 +39,8 @@ def view(pid, case, obs):
     """Binding view: success / error / panic and the reported local time.  Which error message is
     produced is advisory (the property only says when construction succeeds)."""
     code = obs[0][0] if obs and obs[0] else None
-    cls = 0 if code == 0 else (99 if code == 99 else (98 if code == 98 else 1))
+    # 90 / 91: check() and new() disagree on the same input (the harness calls both, twice each)
+    cls = 0 if code == 0 else (code if code in (90, 91, 98, 99) else 1)
     return [cls, obs[1] if len(obs) > 1 else None]
 
 
